@@ -90,16 +90,21 @@ class Task(NamedUIDObject):
         # a task is created. The first task has number 1, the second number 2 etc.
         self._task_number = processscheduler.base.active_problem.add_task(self)  # type: int
 
+        # release date and deadline only bind a task that is scheduled: they are
+        # kept aside and added by set_assertions together with the other
+        # assertions of the task
+        self._date_assertions = []
+
         # the release date
         if self.release_date is not None:
             if self.release_date > 0:  # other wise redundant constraint
-                self.append_z3_assertion(self._start >= self.release_date)
+                self._date_assertions.append(self._start >= self.release_date)
 
         # the due date
         if self.due_date is not None:
             # two cases, if the dure_date is a deadline (True by default):
             if self.due_date_is_deadline:
-                self.append_z3_assertion(self._end <= self.due_date)
+                self._date_assertions.append(self._end <= self.due_date)
             # TODO: Should implement a penalty function if the due_date can be delayed
 
     def add_required_resource(
@@ -210,6 +215,7 @@ class Task(NamedUIDObject):
     def set_assertions(self, list_of_z3_assertions: List[z3.BoolRef]) -> None:
         """Take a list of constraint to satisfy. Create two cases: if the task is scheduled,
         nothing is done; if the task is optional, move task to the past"""
+        list_of_z3_assertions = self._date_assertions + list_of_z3_assertions
         if self.optional:  # in this case the previous assertions maybe skipped
             self._scheduled = z3.Bool(f"{self.name}_scheduled")
             # the first task is moved to -1, the second to -2
